@@ -5,6 +5,7 @@ import Gimli.Lemmas.UnitHeader
 import Gimli.Lemmas.DieSibling
 import Gimli.Lemmas.DieTree
 import Gimli.Lemmas.DieTotal
+import Gimli.Lemmas.AbbrevTable
 import Gimli.Props.C03
 /-!
 # C02 — The DIE forest is reported exactly as encoded, by every navigation API
@@ -23,7 +24,7 @@ children flag and that the entry's attribute bytes are an encoding of the declar
 assignment, forest shape, attribute content and encoding parameters.
 -/
 namespace Gimli.Props.C02
-open Gimli Gimli.Attr Gimli.Abbrev Gimli.Die Gimli.Spec Gimli.Spec.Forest Gimli.Spec.Unit
+open Gimli Gimli.Attr Gimli.Abbrev Gimli.Die Gimli.Spec Gimli.Spec.Forest Gimli.Spec.Unit Gimli.Spec.AbbrevTable
 
 /-! ## (1) raw entry reading reports exactly the depth-first listing -/
 
@@ -178,6 +179,23 @@ theorem abbrev_get_insert (bs : Bytes) (ds : List Abbreviation)
   · intro hnd
     rw [hl, hspec.2 hnd]
 
+/-- **`abbrev_table_roundtrip`.** The same against the DWARF encoding of a table
+(`Spec.AbbrevTable.encodeTable`: any declarations a producer can write — any non-zero codes up
+to 2^64 in any order, any tags, attribute lists with implicit constants): when the codes are
+pairwise distinct, parsing the encoded table (followed by anything) succeeds and `get c`
+returns exactly the declaration carrying `c`; when a code repeats, parsing fails with
+`DuplicateAbbreviationCode`. -/
+theorem abbrev_table_roundtrip (ds : List Abbreviation) (hv : ∀ a ∈ ds, DeclValid a) (rest : Bytes) :
+    (((ds.map (·.code)).Nodup) →
+      ∃ t, Abbreviations.parse (encodeTable ds ++ rest) = .ok t ∧
+        ∀ c, t.get c = ds.find? (fun a => a.code = c)) ∧
+    ((¬ (ds.map (·.code)).Nodup) →
+      Abbreviations.parse (encodeTable ds ++ rest) = .err .rDuplicateAbbreviationCode) :=
+  abbrev_get_insert (encodeTable ds ++ rest) ds
+    (parseDecls_rt ds _ rest hv (by
+      have := encodeTable_length ds
+      simp only [List.length_append]; omega))
+
 /-- the storage level: inserting a code that `get` does not find succeeds and afterwards `get`
 finds exactly it in addition; inserting one that `get` finds fails (dense vector or map, for
 any code) -/
@@ -315,6 +333,8 @@ example : (Abbreviations.parse [0x02, 0x24, 0x00, 0x0b, 0x0b, 0, 0, 0x80, 0x80, 
     = .ok (some 0x24, some 0x11, some 0x2e, none) := by decide
 example : Abbreviations.parse [0x02, 0x24, 0x00, 0, 0, 0x01, 0x2e, 0x00, 0, 0, 0x02, 0x11, 0x01, 0, 0, 0]
     = .err .rDuplicateAbbreviationCode := by decide
+example : DeclValid ⟨2 ^ 40, 0x2e, true, [⟨0x03, .strp, 0⟩, ⟨0x3a, .implicitConst, -5⟩]⟩ := by
+  simp [DeclValid, SpecValid, Form.ofCode, Form.code]
 example : Valid ⟨.dwarf64, 5, 8, .splitType 0x1122334455667788 0x30, 0x40⟩ .debugInfo 100 := by
   simp [Valid, Format.wordSize]
 
